@@ -309,7 +309,16 @@ class GroupedType(BaseDataType):
 
 
     def __setitem__(self, idx, value):
+        old = self._avps[idx]
         self._avps[idx] = value
+
+        for key, item in list(self.__dict__.items()):
+            if item is old:
+                self.__dict__[key] = value
+
+        self._data = b""
+        for avp in self.avps:
+            self._data += avp.dump()
 
 
     def append(self, avp):
